@@ -16,7 +16,7 @@ SPEC = {
             "TimeoutError. distinct = distinct (family, formula skeleton, outcome-kind sequence)",
     "minimum": {"quick": {"histories": 120, "calls": 800, "ended_stop": 30, "ended_timeout": 25, "histories_with_3_trees": 50, "virtual_timeouts": 20,
                           "timeout_with_solutions_before": 5},
-                "thorough": {"histories": 1600, "ended_stop": 430, "ended_timeout": 300, "histories_with_3_trees": 1000}},
+                "thorough": {"histories": 400, "ended_stop": 120, "ended_timeout": 80, "histories_with_3_trees": 150}},
     "assumptions": ["constraints rejected by the constructor / parse_isla are not histories of solve()", "a watchdog kill is inconclusive",
                     "the virtual clock represents time.time() as used by ISLaSolver.solve (checked against a real-time slice)"],
 }
